@@ -1,5 +1,6 @@
 import DsdVerif.Spec.Symbols
 import DsdVerif.Props.C16Reader
+import DsdVerif.Props.C16Text
 
 namespace Dsd.Symbols
 
